@@ -104,7 +104,9 @@ fn call(oracle: &str, v: &Value) -> Value {
         "incan::emit_promotion" => c05::emit_promotion(v),
         #[cfg(feature = "lsp")]
         "lsp::diagnostic_range" => c05::diagnostic_range(v),
-        "syntax::get_line_info" => {
+        #[cfg(feature = "lsp")]
+        "lsp::server_ranges" => server::server_ranges(v),
+        "syntax::get_line_info" | "syntax::format_error_location" => {
             use incan_syntax::diagnostics::{format_error, CompileError};
             use incan_syntax::ast::Span;
             let (s, a, b) = (gs(v, "s"), gu(v, "start"), gu(v, "end"));
@@ -140,6 +142,87 @@ fn call(oracle: &str, v: &Value) -> Value {
     }
 }
 
+
+#[cfg(feature = "lsp")]
+mod server {
+    //! C19 bounded stand-in for the call sites in src/lsp/backend.rs (async tower-lsp handlers: outside the verifier's
+    //! reach): the REAL language server is driven with did_open + hover + goto_definition at a cursor position and every
+    //! range it returns must lie inside the document with start <= end.
+    use super::{guarded, verdict};
+    use incan::lsp::IncanLanguageServer;
+    use serde_json::{json, Value};
+    use tower_lsp::lsp_types::*;
+    use tower_lsp::{Client, LanguageServer, LspService};
+
+    pub const SERVER_DOCS: &[&str] = &[
+        "def helper() -> int:\n    return 1\n\ndef main() -> None:\n    println(helper())\n",
+        "@derive(Debug)\nmodel User:\n    name: str\n\ndef main() -> None:\n    u = User(name=\"é\")\n    println(u.name)\n",
+        "const GREETING: str = \"héllo 😀\"\n\ndef shout(s: str) -> str:\n    return s\n\ndef main() -> None:\n    println(shout(GREETING))\n",
+        "def f(a: int) -> int:\r\n    return a\r\n\r\ndef main() -> None:\r\n    println(f(1))\r\n",
+        "enum Color:\n    Red\n    Green\n\ndef pick() -> Color:\n    return Color.Red\n\ndef main() -> None:\n    c = pick()\n",
+        "def main() -> None:\n    x: int = 1 +\n",
+    ];
+
+    fn server() -> IncanLanguageServer {
+        let mut captured: Option<Client> = None;
+        let (_service, _socket) = LspService::new(|client| { captured = Some(client.clone()); IncanLanguageServer::new(client) });
+        IncanLanguageServer::new(captured.expect("client"))
+    }
+    fn pos_ok(source: &str, p: Position) -> bool {
+        // a position of the document: some character boundary has exactly this (line, column)
+        let (mut l, mut c) = (0u32, 0u32);
+        if (l, c) == (p.line, p.character) { return true; }
+        for ch in source.chars() {
+            if ch == '\n' { l += 1; c = 0 } else { c += 1 }
+            if (l, c) == (p.line, p.character) { return true; }
+        }
+        false
+    }
+    fn range_ok(source: &str, r: &Range) -> bool {
+        (r.start.line, r.start.character) <= (r.end.line, r.end.character) && pos_ok(source, r.start) && pos_ok(source, r.end)
+    }
+
+    pub fn server_ranges(v: &Value) -> Value {
+        let di = v["doc"].as_u64().unwrap() as usize % SERVER_DOCS.len();
+        let source = SERVER_DOCS[di].to_string();
+        // cursor: the k-th character boundary
+        let k = v["k"].as_u64().unwrap() as usize;
+        let (mut l, mut c, mut n) = (0u32, 0u32, 0usize);
+        for ch in source.chars() { if n == k { break; } if ch == '\n' { l += 1; c = 0 } else { c += 1 } n += 1; }
+        let at = Position::new(l, c);
+        let src2 = source.clone();
+        let got = guarded(move || {
+            let rt = tokio::runtime::Builder::new_current_thread().enable_all().build().unwrap();
+            rt.block_on(async {
+                let uri = Url::parse("untitled:verif").unwrap();
+                let srv = server();
+                srv.did_open(DidOpenTextDocumentParams { text_document: TextDocumentItem { uri: uri.clone(), language_id: "incan".to_string(), version: 1, text: src2.clone() } }).await;
+                let mut ranges: Vec<(String, Range)> = Vec::new();
+                let tdp = TextDocumentPositionParams { text_document: TextDocumentIdentifier { uri: uri.clone() }, position: at };
+                if let Ok(Some(h)) = srv.hover(HoverParams { text_document_position_params: tdp.clone(), work_done_progress_params: Default::default() }).await {
+                    if let Some(r) = h.range { ranges.push(("hover".to_string(), r)); }
+                }
+                if let Ok(Some(resp)) = srv.goto_definition(GotoDefinitionParams { text_document_position_params: tdp.clone(), work_done_progress_params: Default::default(), partial_result_params: Default::default() }).await {
+                    match resp {
+                        GotoDefinitionResponse::Scalar(loc) => if loc.uri == uri { ranges.push(("definition".to_string(), loc.range)) },
+                        GotoDefinitionResponse::Array(ls) => for loc in ls { if loc.uri == uri { ranges.push(("definition".to_string(), loc.range)) } },
+                        GotoDefinitionResponse::Link(ls) => for l in ls { if l.target_uri == uri { ranges.push(("definition".to_string(), l.target_range)) } },
+                    }
+                }
+                ranges
+            })
+        });
+        let echo = json!({"doc": di, "k": k, "cursor": [at.line, at.character], "source": source});
+        match &got {
+            Ok(rs) => {
+                let bad: Vec<_> = rs.iter().filter(|(_, r)| !range_ok(&source, r)).map(|(w, r)| json!({"what": w, "range": [[r.start.line, r.start.character], [r.end.line, r.end.character]]})).collect();
+                verdict(bad.is_empty(), json!({"ranges_returned": rs.len(), "outside_document_or_reversed": bad}), json!("every returned range: start <= end, both ends positions of the document"), &echo,
+                        "ranges answered by the language server lie inside the document")
+            }
+            Err(m) => verdict(false, json!({"panicked": m}), json!("no panic"), &echo, "the server must not panic"),
+        }
+    }
+}
 
 #[cfg(feature = "lsp")]
 mod c05 {
@@ -179,15 +262,29 @@ mod c05 {
         let op = ops[v["op"].as_u64().unwrap() as usize % 3];
         let lf = v["lfloat"].as_bool().unwrap();
         let rf = v["rfloat"].as_bool().unwrap();
-        let compound = v["compound"].as_bool().unwrap();
+        // form: plain `q = L op R`; compound on a local / a field / a list element; const initializer over literals
+        let form = v["form"].as_str().unwrap_or(if v["compound"].as_bool().unwrap_or(false) { "local" } else { "plain" });
+        let compound = form != "plain" && form != "const";
         let float = op == "/" || lf || rf;
         if compound && float != lf { return verdict(true, json!(null), json!(null), v, "compound form would change the target's kind: rejected by the checker (C07)"); }
-        let (l, r) = (if lf { "x" } else { "a" }, if rf { "y" } else { "b" });
-        let stmt = if compound { format!("    mut {l}2: {} = {l}\n    {l}2 {op}= {r}\n", if lf { "float" } else { "int" }) } else { format!("    q = {l} {op} {r}\n") };
-        let src = format!("def f(a: int, b: int, x: float, y: float) -> None:\n{}\ndef main() -> None:\n    pass\n", stmt);
-        let lname = if compound { format!("{l}2") } else { l.to_string() };
+        let r = if rf { "y" } else { "b" };
+        let (lsrc, lname): (String, String) = match form {
+            "plain" => (if lf { "x" } else { "a" }.to_string(), if lf { "x" } else { "a" }.to_string()),
+            "local" => (if lf { "x2" } else { "a2" }.to_string(), if lf { "x2" } else { "a2" }.to_string()),
+            "field" => (if lf { "acc.total" } else { "acc.n" }.to_string(), if lf { "acc.total" } else { "acc.n" }.to_string()),
+            "index" => (if lf { "gs[0]" } else { "ys[0]" }.to_string(), if lf { "gs" } else { "ys" }.to_string()),
+            _ => ("7".to_string(), "7".to_string()),
+        };
+        let src = if form == "const" {
+            if lf || rf { return verdict(true, json!(null), json!(null), v, "const form uses int literals only"); }
+            format!("const Q: {} = 7 {} -2\n\ndef main() -> None:\n    pass\n", if float { "float" } else { "int" }, op)
+        } else {
+            let stmt = if compound { format!("    {} {}= {}\n", lsrc, op, r) } else { format!("    q = {} {} {}\n", lsrc, op, r) };
+            format!("model Acc:\n    total: float\n    n: int\n\ndef f(a: int, b: int, x: float, y: float, a0: Acc, fs: List[float], xs: List[int]) -> None:\n    mut a2: int = a\n    mut x2: float = x\n    mut acc: Acc = a0\n    mut gs: List[float] = fs\n    mut ys: List[int] = xs\n{}\ndef main() -> None:\n    pass\n", stmt)
+        };
         let helper = match (op, float) { ("/", _) => "py_div", ("//", false) => "py_floor_div_i64", ("//", true) => "py_floor_div_f64", (_, false) => "py_mod_i64", (_, true) => "py_mod_f64" };
-        let want = vec![(lname.clone(), float && !lf), (r.to_string(), float && !rf)];
+        let rname = if form == "const" { "2".to_string() } else { r.to_string() };
+        let want = vec![(lname.clone(), float && !lf), (rname, float && !rf)];
         let arg_ok = |got: &str, (name, promoted): &(String, bool)| -> bool {
             got.contains(name.as_str()) && ((got.contains("f64") || got.contains("into")) == *promoted)
         };
@@ -201,12 +298,22 @@ mod c05 {
             Ok(Ok(code)) => {
                 let flat: String = code.split_whitespace().collect::<Vec<_>>().join(" ").replace(" :: ", "::");
                 let full = format!("incan_stdlib::num::{}", helper);
-                // the helper name must be followed by '(' (py_mod vs py_mod_i64)
                 let args = flat.match_indices(&full).filter(|(i, _)| flat[i + full.len()..].starts_with('(')).next()
                     .and_then(|(i, _)| call_args(&flat[i..], &full)).map(|a| a.iter().map(|x| norm(x)).collect::<Vec<_>>());
-                let ok = matches!(&args, Some(a) if a.len() == 2 && arg_ok(&a[0], &want[0]) && arg_ok(&a[1], &want[1]));
-                verdict(ok, json!({"call_args": args, "num_calls": flat.matches("incan_stdlib::num::").count()}),
-                        json!({"helper": full, "args (operand, promoted to float?)": want.iter().map(|(n, p)| json!([n, p])).collect::<Vec<_>>()}), &echo,
+                let mut ok = matches!(&args, Some(a) if a.len() == 2 && arg_ok(&a[0], &want[0]) && arg_ok(&a[1], &want[1]));
+                let mut folded = Value::Null;
+                if !ok && form == "const" {
+                    // a folded literal is fine if its VALUE is Python's: 7 // -2 == -4, 7 % -2 == -1, 7 / -2 == -3.5
+                    if let Some(i) = flat.find("const Q") {
+                        let rest = &flat[i..]; let init = rest[rest.find('=').unwrap_or(0) + 1..rest.find(';').unwrap_or(rest.len())].trim().to_string();
+                        let val: Option<f64> = init.replace('_', "").replace("i64", "").replace("f64", "").replace(' ', "").trim_matches(|c| c == '(' || c == ')').parse().ok();
+                        let py = match op { "/" => -3.5, "//" => -4.0, _ => -1.0 };
+                        folded = json!({"initializer": init, "value": val});
+                        ok = val == Some(py);
+                    }
+                }
+                verdict(ok, json!({"call_args": args, "folded_const": folded}),
+                        json!({"helper": full, "args (operand, promoted to float?)": want.iter().map(|(n, p)| json!([n, p])).collect::<Vec<_>>(), "or for a const": "a literal with Python's value"}), &echo,
                         "generated call: documented helper for the table's kind, operands in source order, exactly the int operands of a float operation converted to float")
             }
             Ok(Err(m)) => verdict(false, json!({"front_end_error": m}), json!({"helper": helper}), &echo, "a well-typed division must compile"),
@@ -557,6 +664,13 @@ fn search(oracle: &str, seed: u64, budget: u64, skip: &[String]) -> Value {
         let a = match oracle {
             "lsp::offset_to_position" => json!({"s": s, "offset": roff(&mut r, &s)}),
             "lsp::round_trip" | "lsp::position_to_offset" | "lsp::monotone" => json!({"s": s, "k": r.below(s.chars().count() as u64 + 1)}),
+            "syntax::format_error_location" => {
+                // exhaustive: fixed documents x every start offset in 0..=len+1 plus two huge offsets (end = start)
+                let d = DOCS[(n % DOCS.len() as u64) as usize];
+                let q = (n / DOCS.len() as u64) % (d.len() as u64 + 4);
+                let st = if q < d.len() as u64 + 2 { q as usize } else if q == d.len() as u64 + 2 { usize::MAX - 1 } else { usize::MAX / 2 };
+                json!({"s": d, "start": st, "end": st})
+            }
             "lsp::span_to_range" | "syntax::get_line_info" => { let a = roff(&mut r, &s); let b = roff(&mut r, &s); json!({"s": s, "start": a, "end": b}) }
             "incan::static_type" => {
                 // exhaustive: 7 operators x 2 x 2 operand kinds x 2 annotations x 7 right-operand forms x 3 binding positions = 1176 programs
@@ -570,6 +684,20 @@ fn search(oracle: &str, seed: u64, budget: u64, skip: &[String]) -> Value {
                 let k = n % 576;
                 json!({"op": k % 4, "l": (k / 4) % 4, "r": (k / 16) % 9, "compound": (k / 144) % 2 == 1, "shadow": (k / 288) % 2 == 1})
             }
+            "lsp::server_ranges" => {
+                // exhaustive: 6 fixed documents x every character boundary as the cursor
+                #[cfg(feature = "lsp")]
+                {
+                    let docs = server::SERVER_DOCS;
+                    let mut acc = 0u64; let mut pick = (0usize, 0usize);
+                    let total: u64 = docs.iter().map(|d| d.chars().count() as u64 + 1).sum();
+                    let m = n % total;
+                    for (i, d) in docs.iter().enumerate() { let c = d.chars().count() as u64 + 1; if m < acc + c { pick = (i, (m - acc) as usize); break; } acc += c; }
+                    json!({"doc": pick.0, "k": pick.1})
+                }
+                #[cfg(not(feature = "lsp"))]
+                { Value::Null }
+            }
             "lsp::diagnostic_range" => {
                 // exhaustive over a fixed document list x every (start, end) in 0..=len+1 plus the extremes
                 let docs = DOCS;
@@ -580,9 +708,11 @@ fn search(oracle: &str, seed: u64, budget: u64, skip: &[String]) -> Value {
                 json!({"s": d, "start": pick(q % m), "end": pick((q / m) % m)})
             }
             "incan::emit_division" => {
-                // exhaustive: 3 operators x 2 x 2 operand kinds x plain/compound = 24 programs
-                let k = n % 24;
-                json!({"op": k % 3, "lfloat": (k / 3) % 2 == 0, "rfloat": (k / 6) % 2 == 0, "compound": (k / 12) % 2 == 0})
+                // exhaustive: 3 operators x 2 x 2 operand kinds x 5 forms (plain, compound on local / field / list element, const initializer) = 60 programs
+                let forms = ["plain", "local", "field", "index", "const"];
+                let k = n % 60;
+                let f = forms[((k / 12) % 5) as usize];
+                json!({"op": k % 3, "lfloat": (k / 3) % 2 == 0, "rfloat": (k / 6) % 2 == 0, "form": f})
             }
             "incan::emit_slice" => {
                 // exhaustive: 2 targets x (slice: 4 start x 4 end x 4 step forms x compact/spaced  +  index: 4 forms) = 2 x (128 + 4) = 264
